@@ -204,6 +204,19 @@ fn window_edge_block(_cfg: &Cfg, out: &mut Vec<String>) {
 						t.push_str(&format!("clone-alive={} ", c.iter().all(Tracked::alive)));
 						drop(c);
 					}
+					if k == n + 1 || k == 1 {
+						// clone_from into a window of the same capacity (buffer re-used) and of another one, each with
+						// live elements of its own: those must be dropped exactly once, the copies must be new values
+						for m in [n, n + 1] {
+							let mut d: Window<Tracked> = Window::new(m as PeriodType, Tracked::new());
+							d.push(Tracked::new());
+							d.clone_from(&w);
+							t.push_str(&format!("clone_from({m}<-{n})-alive={} len={} ", d.iter().all(Tracked::alive), d.len()));
+							t.push_str(&ledger_state());
+							drop(d);
+							t.push_str(&format!("source-alive-after={} ", w.iter().all(Tracked::alive)));
+						}
+					}
 					t.push_str(&ledger_state());
 				}
 				let mut y = <yata::methods::Past<Tracked> as yata::core::Method>::new(n as PeriodType, &Tracked::new()).unwrap();
